@@ -174,4 +174,57 @@ theorem wrap_conds_src : wrap_conds = wrap_conds_expected := rfl
 def reqinfo_pool_reset_expected : String := "mw.messages"
 theorem reqinfo_pool_reset_src : reqinfo_pool_reset = reqinfo_pool_reset_expected := rfl
 
+/-! Round 5: the backend's profile message, `backendpb.DNSProfile.toInternal` (`Agd.Filter.PbProfile.toProfile`): every setting goes to the setting of the same name, the days are reordered Sunday first, the end of a day range is the last minute (+1), an absent TTL is zero, custom rules are in force iff there are any, the blocking-mode cases in source order. -/
+def pb_par_enabled_expected : String := "x.Enabled"
+theorem pb_par_enabled_src : pb_par_enabled = pb_par_enabled_expected := rfl
+def pb_par_adult_expected : String := "x.BlockAdult"
+theorem pb_par_adult_src : pb_par_adult = pb_par_adult_expected := rfl
+def pb_par_gss_expected : String := "x.GeneralSafeSearch"
+theorem pb_par_gss_src : pb_par_gss = pb_par_gss_expected := rfl
+def pb_par_yss_expected : String := "x.YoutubeSafeSearch"
+theorem pb_par_yss_src : pb_par_yss = pb_par_yss_expected := rfl
+def pb_par_svcs_expected : String := "blockedSvcsToInternal(ctx, errColl, logger, x.BlockedServices)"
+theorem pb_par_svcs_src : pb_par_svcs = pb_par_svcs_expected := rfl
+def pb_sb_enabled_expected : String := "x.Enabled"
+theorem pb_sb_enabled_src : pb_sb_enabled = pb_sb_enabled_expected := rfl
+def pb_sb_dangerous_expected : String := "x.BlockDangerousDomains"
+theorem pb_sb_dangerous_src : pb_sb_dangerous = pb_sb_dangerous_expected := rfl
+def pb_sb_nrd_expected : String := "x.BlockNrd"
+theorem pb_sb_nrd_src : pb_sb_nrd = pb_sb_nrd_expected := rfl
+def pb_rl_enabled_expected : String := "x.Enabled"
+theorem pb_rl_enabled_src : pb_rl_enabled = pb_rl_enabled_expected := rfl
+/-- (Nil-safe getters since the C14 repair: an absent `weekly_range` is the default message.) -/
+def pb_sched_days_expected : String := "[]*DayRange{ w.GetSun(), w.GetMon(), w.GetTue(), w.GetWed(), w.GetThu(), w.GetFri(), w.GetSat(), }"
+theorem pb_sched_days_src : pb_sched_days = pb_sched_days_expected := rfl
+def pb_sched_ivl_expected : String := "&filter.DayInterval{ Start: uint16(d.Start.AsDuration().Minutes()), End: uint16(d.End.AsDuration().Minutes() + 1), }"
+theorem pb_sched_ivl_src : pb_sched_ivl = pb_sched_ivl_expected := rfl
+def pb_ttl_expected : String := "respTTL.AsDuration()"
+theorem pb_ttl_src : pb_ttl = pb_ttl_expected := rfl
+def pb_custom_expected : String := "&filter.ConfigCustom{ ID: string(x.DnsId), UpdateTime: updTime, Rules: customRules, Enabled: len(customRules) > 0, }"
+theorem pb_custom_src : pb_custom = pb_custom_expected := rfl
+def pb_mode_returns_expected : String := "&dnsmsg.BlockingModeNullIP{}, nil | pbm.BlockingModeCustomIp.toInternal() | &dnsmsg.BlockingModeNXDOMAIN{}, nil | &dnsmsg.BlockingModeNullIP{}, nil | &dnsmsg.BlockingModeREFUSED{}, nil | nil, fmt.Errorf(\"bad pb blocking mode %T(%[1]v)\", pbm)"
+theorem pb_mode_returns_src : pb_mode_returns = pb_mode_returns_expected := rfl
+def pb_custom_ip_conds_expected : String := "err != nil | ipv4Addr.IsValid() | err != nil | ipv6Addr.IsValid() | len(custom.IPv4)+len(custom.IPv6) == 0"
+theorem pb_custom_ip_conds_src : pb_custom_ip_conds = pb_custom_ip_conds_expected := rfl
+def pb_mode_cases_expected : String := "nil | *DNSProfile_BlockingModeCustomIp | *DNSProfile_BlockingModeNxdomain | *DNSProfile_BlockingModeNullIp | *DNSProfile_BlockingModeRefused | default"
+theorem pb_mode_cases_src : pb_mode_cases = pb_mode_cases_expected := rfl
+
+/-! Round 5: the special-domain handler of the initial middleware (`Agd.Filter.specialRcode`, `serveSpecial`): address types only, five fixed names in three cases, each guarded by its own switch of the profile (of the filtering group for anonymous requesters), answered with `NewRespRCode` NXDOMAIN / NXDOMAIN / REFUSED from the requester's constructor. -/
+def special_handler_conds_expected : String := "qt != dns.TypeA && qt != dns.TypeAAAA | shouldBlockPrivateRelay(ri, prof) | shouldBlockChromePrefetch(ri, prof) | shouldBlockFirefoxCanary(ri, prof)"
+theorem special_handler_conds_src : special_handler_conds = special_handler_conds_expected := rfl
+def special_handler_cases_expected : String := "ApplePrivateRelayMaskHost,ApplePrivateRelayMaskH2Host,ApplePrivateRelayMaskCanaryHost | ChromePrefetchHost | FirefoxCanaryHost | default"
+theorem special_handler_cases_src : special_handler_cases = special_handler_cases_expected := rfl
+def special_relay_returns_expected : String := "prof.BlockPrivateRelay | ri.FilteringGroup.BlockPrivateRelay"
+theorem special_relay_returns_src : special_relay_returns = special_relay_returns_expected := rfl
+def special_prefetch_returns_expected : String := "prof.BlockChromePrefetch | ri.FilteringGroup.BlockChromePrefetch"
+theorem special_prefetch_returns_src : special_prefetch_returns = special_prefetch_returns_expected := rfl
+def special_canary_returns_expected : String := "prof.BlockFirefoxCanary | ri.FilteringGroup.BlockFirefoxCanary"
+theorem special_canary_returns_src : special_canary_returns = special_canary_returns_expected := rfl
+def special_relay_resp_expected : String := "ri.Messages.NewRespRCode(req, dns.RcodeNameError)"
+theorem special_relay_resp_src : special_relay_resp = special_relay_resp_expected := rfl
+def special_prefetch_resp_expected : String := "ri.Messages.NewRespRCode(req, dns.RcodeNameError)"
+theorem special_prefetch_resp_src : special_prefetch_resp = special_prefetch_resp_expected := rfl
+def special_canary_resp_expected : String := "ri.Messages.NewRespRCode(req, dns.RcodeRefused)"
+theorem special_canary_resp_src : special_canary_resp = special_canary_resp_expected := rfl
+
 end Agd.Tie.C02
